@@ -116,3 +116,9 @@ pub fn t_try_for_each(v: Vec<u128>, lim: u128) -> Result<u128, u8> {
     v.iter().try_for_each(|x| if *x > lim { Err(1u8) } else { n = n + 1; Ok(()) })?;
     Ok(n)
 }
+
+// transpose / cloned keep the case split of the underlying Option
+pub fn t_transpose(x: Option<u128>, lim: u128) -> Result<Option<u128>, u8> {
+    x.as_ref().map(|v| -> Result<u128, u8> { if *v > lim { Err(3u8) } else { Ok(*v + 1) } }).transpose()
+}
+pub fn t_cloned(h: &H) -> u128 { h.slot.as_ref().cloned().unwrap_or(7) }
